@@ -204,9 +204,9 @@ Static analysis (call-graph closure + MIR stores). Decided clause (sufficient an
 POOL/C11 and the Vec::resize contract): in the call-graph closure of MapTree::insert and SetTree::insert the only
 writes to a node payload target the slot returned by the allocator in the same function; no mutable reference to a
 stored payload is passed to foreign code; no element of the arena vector is moved; lookups take &self and the
-collection types contain no interior mutability [IMMOBILE].""",
+collection types contain no interior mutability [IMMOBILE]. The pools of the map and the set keep every slot either in use or on the free list (allocation, growth range, release, clear): an insertion is never handed a slot that a live entry occupies [POOL].""",
      ["C11 (a slot taken from the allocator is not in use)", "Vec::resize appends without moving elements observably (indices are stable)"],
-     {'IMMOBILE': 6})
+     {'IMMOBILE': 6, 'POOL': 10})
 
 prop('C19', """
 Static analysis (symbolic size forms over MIR/SSA). Decided clause (sufficient and necessary for the bound, given that
